@@ -1,0 +1,68 @@
+//go:build verif
+// +build verif
+
+// Read-only views of unexported tables and constants, for the verification
+// harness in /verif (built only with -tags verif; adds no behaviour).
+
+package sipsp
+
+// VerifHdrNameEntry is one (name, type) pair of a header name table.
+type VerifHdrNameEntry struct {
+	N []byte
+	T HdrT
+}
+
+// VerifMthNameEntry is one (name, method) pair of the method lookup table.
+type VerifMthNameEntry struct {
+	N []byte
+	T SIPMethod
+}
+
+// VerifHdrName2Type returns a copy of hdrName2Type.
+func VerifHdrName2Type() []VerifHdrNameEntry {
+	r := make([]VerifHdrNameEntry, 0, len(hdrName2Type))
+	for _, h := range hdrName2Type {
+		r = append(r, VerifHdrNameEntry{append([]byte(nil), h.n...), h.t})
+	}
+	return r
+}
+
+// VerifHdrNameLookup returns a copy of the hdrNameLookup buckets.
+func VerifHdrNameLookup() [][]VerifHdrNameEntry {
+	r := make([][]VerifHdrNameEntry, len(hdrNameLookup))
+	for i, b := range hdrNameLookup {
+		for _, h := range b {
+			r[i] = append(r[i],
+				VerifHdrNameEntry{append([]byte(nil), h.n...), h.t})
+		}
+	}
+	return r
+}
+
+// VerifMthNameLookup returns a copy of the mthNameLookup buckets.
+func VerifMthNameLookup() [][]VerifMthNameEntry {
+	r := make([][]VerifMthNameEntry, len(mthNameLookup))
+	for i, b := range mthNameLookup {
+		for _, m := range b {
+			r[i] = append(r[i],
+				VerifMthNameEntry{append([]byte(nil), m.n...), m.t})
+		}
+	}
+	return r
+}
+
+// VerifHashBits returns hnBitsLen, hnBitsFChar, mthBitsLen, mthBitsFChar.
+func VerifHashBits() (uint, uint, uint, uint) {
+	return hnBitsLen, hnBitsFChar, mthBitsLen, mthBitsFChar
+}
+
+// VerifSipVerSP returns a copy of sipVerSP.
+func VerifSipVerSP() []byte {
+	return append([]byte(nil), sipVerSP...)
+}
+
+// VerifSigHdrs returns copies of sigHdrs, hdr2SigId and sigHdrsFlags.
+func VerifSigHdrs() ([]HdrT, []HdrSigId, HdrFlags) {
+	return append([]HdrT(nil), sigHdrs[:]...),
+		append([]HdrSigId(nil), hdr2SigId[:]...), sigHdrsFlags
+}
